@@ -12,13 +12,22 @@ import (
 	"github.com/imroc/req/v3/internal/verifh"
 )
 
+// c16Canon: header names are case-insensitive (canonical MIME form); so are pseudo header names,
+// which the MIME canonicaliser leaves untouched because ':' is not a token byte.
+func c16Canon(k string) string {
+	if strings.HasPrefix(k, ":") {
+		return strings.ToLower(k)
+	}
+	return textproto.CanonicalMIMEHeaderKey(k)
+}
+
 // c16Index is the oracle's own reading of "position in the order list" (last occurrence,
-// canonical key), written independently of sort.go.
+// case-insensitive), written independently of sort.go.
 func c16Index(order []string, key string) int {
-	ck := textproto.CanonicalMIMEHeaderKey(key)
+	ck := c16Canon(key)
 	idx := -1
 	for i, o := range order {
-		if textproto.CanonicalMIMEHeaderKey(o) == ck {
+		if c16Canon(o) == ck {
 			idx = i
 		}
 	}
@@ -33,7 +42,7 @@ func TestVerif_C16_sort(t *testing.T) {
 		"random key/value lists of 0..60 entries (names differing only in case, repeated names, random initial order) x order lists (subset, superset, permuted, duplicated, other case); non-trivial = at least 2 listed and 1 unlisted key present; distinct by case line")
 	s.OracleIndependent = true // the relative order of unlisted keys is not fixed by the property
 	r := s.Rand()
-	pool := []string{"Accept", "accept", "ACCEPT", "User-Agent", "user-agent", "Host", "Cookie", "X-A", "X-B", "x-b", "X-C", "X-D", "X-E", "X-F", "X-G", "X-H", "X-I", "X-J", "X-K", "X-L", "X-M", "X-N", "X-O", "X-P", "X-Q", "X-R", "Content-Type", "content-length", "Referer", "Origin", "a b", "Ünï", "x_y", "Z"}
+	pool := []string{"Accept", "accept", "ACCEPT", "User-Agent", "user-agent", "Host", "Cookie", "X-A", "X-B", "x-b", "X-C", "X-D", "X-E", "X-F", "X-G", "X-H", "X-I", "X-J", "X-K", "X-L", "X-M", "X-N", "X-O", "X-P", "X-Q", "X-R", "Content-Type", "content-length", "Referer", "Origin", "a b", "Ünï", "x_y", "Z", ":method", ":path", ":scheme", ":authority", ":Path", ":METHOD"}
 	n := verifh.N(4000, 200000)
 	for c := 0; c < n; c++ {
 		var size int
@@ -138,7 +147,14 @@ func TestVerif_C16_sort(t *testing.T) {
 		if listed >= 2 && unlisted >= 1 {
 			s.Count("mixed")
 		}
+		// known finding C16-2: pseudo header names are compared case-sensitively (the order list
+		// is documented case-insensitive); input class = a ':' name that is not lower case
 		class := ""
+		for _, k := range append(append([]string(nil), keys...), order...) {
+			if strings.HasPrefix(k, ":") && k != strings.ToLower(k) {
+				class = "pseudo-order-case"
+			}
+		}
 		s.Case("sort "+verifh.HexList(keys)+" "+verifh.HexList(order),
 			verifh.HexList(outKeys)+" "+verifh.HexList(outTags), ok, class,
 			listed >= 2 && unlisted >= 1,
